@@ -37,7 +37,7 @@ def main():
             print(json.dumps(out, indent=1))
             return
         r = sh(['cargo', 'nextest', 'run', '--workspace', '--no-fail-fast', '--offline', '--test-threads', '8'], cwd=tmp, env=env)
-        m = re.search(r'(\d+) tests run: (\d+) passed, (\d+) failed', r.stdout + r.stderr)
+        m = re.search(r'(\d+) tests run: (\d+) passed(?: \(\d+ leaky\))?, (\d+) failed', r.stdout + r.stderr)
         out['tests'] = m.group(0) if m else (r.stderr[-300:])
         # 48 stable tests before the splat fix (005f778), 49 since: `splat_call` passes now; `demos` overflows the debug stack
         out['baseline_ok'] = bool(m and m.group(2) in ('48', '49') and int(m.group(3)) <= 2)
